@@ -199,6 +199,75 @@ def ob_step(start: float, step: float) -> bool:
     return h.done(any=True)
 
 
+def kx_extend_width(params, timeout):
+    """IEEE-754 search: run the real extend_dim_width over z3 Float64 scalars,
+    record the arguments of every np.arange call it makes, and ask z3 for
+    doubles (axis start, step) for which numpy's float range generation yields
+    another number of coordinates than requested."""
+    import types
+
+    import z3
+
+    from models import npl, xrl
+    from vf import kx
+
+    n, width, position = params["n"], params["width"], params["position"]
+    extra = width - n
+    expected = {"start": [extra], "end": [extra], "center": [extra // 2, extra - extra // 2]}[position]
+    start, step = kx.var("start"), kx.var("step")
+    xs = [start + i * step for i in range(n)]
+    records = []
+
+    class Stop(Exception):
+        pass
+
+    def arange(a, b=None, s=1, dtype=None):
+        k = expected[len(records)] if len(records) < len(expected) else 0
+        records.append((a, b, s, k))
+        return npl.ndarray([a + i * s for i in range(k)], (k,), None)
+
+    def concatenate(parts):
+        raise Stop()
+
+    fake_np = types.SimpleNamespace(arange=arange, concatenate=concatenate, float64=npl.float64, ndarray=npl.ndarray)
+    coord = xrl.Variable("time", npl.ndarray(xs, (n,), None), {"step": step})
+    arr = xrl.DataArray(npl.ndarray([0.0] * n, (n,), None), dims=("time",), coords={"time": coord})
+    saved = (O.np, O.xr, D.np, D.xr)
+    O.np, D.np = fake_np, fake_np
+    O.xr, D.xr = xrl.xarray, xrl.xarray
+    try:
+        try:
+            O.extend_dim_width(arr, "time", width, fill_value=0.0, position=position)
+        except Stop:
+            pass
+    finally:
+        O.np, O.xr, D.np, D.xr = saved
+    if not records:
+        return {"status": "error", "message": "kernel not recognised: extend_dim_width made no range-generation call"}
+    wrong = []
+    for (a, b, s, k) in records:
+        if all(isinstance(x, int) for x in (a, b, s)):
+            if len(range(a, b, s)) != k:
+                wrong.append(z3.BoolVal(True))
+            continue
+        wrong.append(z3.Not(z3.fpEQ(kx.arange_len(a, b, s), z3.FPVal(float(k), kx.F64))))
+    if not wrong:
+        return {"status": "confirmed", "queries": 0, "note": "coordinates are generated by integer count"}
+    cons = [kx.finite_between(start, -1000.0, 1000.0), kx.finite_between(step, 0.001, 1000.0), z3.Or(*wrong)]
+    r = kx.solve(cons, timeout, {"start": start, "step": step})
+    res = {"queries": 1, "solve_s": r["solve_s"], "paths": 1}
+    if r["status"] == "sat":
+        m = r["model"]
+        res.update(status="refuted", replay_fn="ob_width", args=[[m["start"], m["step"], 0.0], {}],
+                   message="z3 model: numpy's float range yields another count for start=%r step=%r" % (m["start"], m["step"]),
+                   clause="result does not have exactly `width` samples")
+    elif r["status"] == "unsat":
+        res.update(status="confirmed")
+    else:
+        res.update(status="searched", message="no IEEE counterexample found within %.0fs (z3: unknown)" % timeout)
+    return res
+
+
 def plan():
     q = ("quick", "thorough")
     obs = []
@@ -232,6 +301,9 @@ def plan():
                     obs.append(Ob("width-n%d-w%d-%s-%s" % (n, width, position, "attr" if attr else "est"), ob_width,
                                   "real", 600, dict(n=n, width=width, position=position, with_attr=attr),
                                   q if quick else ("thorough",), twins=("ok",) if width >= 1 else ("rejected",)))
+    for (n, width, position) in ((1, 8, "start"), (1, 4, "end"), (1, 12, "center"), (2, 9, "start")):
+        obs.append(Ob("ieee-width-n%d-w%d-%s" % (n, width, position), kx_extend_width, "kx", 120,
+                      dict(n=n, width=width, position=position, with_attr=True), q, kind="py"))
     return obs
 
 
